@@ -35,6 +35,10 @@ PREC = {"==": 1, "!=": 1, ">=": 1, "<=": 1, "<": 1, ">": 1, "~": 1, "!~": 1, "in
 NULL = ("n",)
 
 
+class DeadCodeFails(Exception):
+    pass
+
+
 class Fail(Exception):
     """A build failure with a coarse class."""
 
@@ -338,7 +342,12 @@ def merge_field(fields, name, val):
 
 
 class Interp:
-    def __init__(self, strict=True, ordered_tuple_eq=True, and_or_check_right=True, trace=None):
+    def __init__(self, strict=True, ordered_tuple_eq=True, and_or_check_right=True, trace=None, eager=False):
+        # eager: also evaluate the branches the semantics skip (right side of a short-circuited
+        # && / ||, unselected select arms and defaults) and raise DeadCodeFails if one of them
+        # fails other than by a user `fail`. Used by C07 to leave out programs that only evaluate
+        # because an ill-typed branch is never reached.
+        self.eager = eager
         self.strict = strict
         self.ordered_tuple_eq = ordered_tuple_eq
         self.and_or_check_right = and_or_check_right
@@ -353,6 +362,8 @@ class Interp:
             self.exec_stmts(stmts, env, [])
         except Fail as f:
             return ("fail", f.cls)
+        except DeadCodeFails as f:
+            return ("dead-code-fails", str(f))
         # PIN: the result tuple is ordered by name
         # PIN: a top-level binding named `mod` (a keyword of the grammar) is not part of the result
         return ("ok", ("t", [(n, to_plain(env[n])) for n in sorted(env) if n != "mod"]))
@@ -450,6 +461,16 @@ class Interp:
             return v
         raise ValueError("cannot evaluate %r" % (e,))
 
+    def dead(self, e, env, selfs, want_bool=False):
+        try:
+            v = self.ev(e, env, selfs)
+        except Fail as f:
+            if f.cls == "user":
+                return
+            raise DeadCodeFails(f.cls)
+        if want_bool and v[0] != "b":
+            raise DeadCodeFails("type")
+
     # -- operators ------------------------------------------------------------------------
     def ev_bin(self, e, env, selfs):
         op, l, r = e[1], e[2], e[3]
@@ -458,6 +479,8 @@ class Interp:
             if a[0] != "b":
                 raise Fail("type", "bool operand")
             if (op == "&&" and not a[1]) or (op == "||" and a[1]):
+                if self.eager:
+                    self.dead(r, env, selfs, want_bool=True)
                 return a
             b = self.ev(r, env, selfs)
             # manual: "they require the expressions on each side to be boolean"
@@ -611,9 +634,16 @@ class Interp:
     # -- select ---------------------------------------------------------------------------
     def ev_select(self, e, env, selfs):
         v = self.ev(e[1], env, selfs)
+        chosen = None
         for name, arm in e[3]:
-            if (v[0] == "s" and v[1] == name) or (v[0] == "b" and name == ("true" if v[1] else "false")):
-                return self.ev(arm, env, selfs)
+            if chosen is None and ((v[0] == "s" and v[1] == name) or (v[0] == "b" and name == ("true" if v[1] else "false"))):
+                chosen = arm
+            elif self.eager:
+                self.dead(arm, env, selfs)
+        if chosen is not None:
+            if self.eager and e[2] is not None:
+                self.dead(e[2], env, selfs)
+            return self.ev(chosen, env, selfs)
         if e[2] is not None:
             return self.ev(e[2], env, selfs)
         raise Fail("select", "unhandled")
